@@ -97,7 +97,9 @@ def r11_1(prog: Program, rep: Report):
                 if e[0] == "assign" and e[1] in names:
                     last[e[1]] = e[2]
             cur = {n: last.get(n, ("param", n) if n in f.params else None) for n in names}
-            if len(last) and cur[names[0]] is not None and cur[names[0]] == cur[names[1]]:
+            # a peel re-binds the value being unwrapped (the parameter); a pass that only records the sentinel is not one
+            peeled = [n for n in names if n in f.params and n in last]
+            if peeled and cur[names[0]] is not None and cur[names[0]] == cur[names[1]]:
                 gs = [T.show(g)[:40] for g, pol in p.guards() if pol][-1:]
                 rep.violated("R11.1", q, f.loc, f"a peel branch ({gs}) leaves the loop sentinel equal to the peeled value, so `while {names[0]} is not {names[1]}` stops after one layer: an alias of an alias (or of a NewType) is only half unwrapped", detail="sentinel")
                 break
